@@ -307,6 +307,10 @@ class ExploreResult:
         self.seconds = 0.0
 
 
+import re as _re
+_re_proxy_type = _re.compile(r"(?<![\w.])(SNum|SBool|GVec|LVec|LMat|LState|SymSet|SymDict|GFrame)(?![\w(])")
+
+
 def _attr_set_in_class_source(msg):
     """True iff msg is "'X' object has no attribute 'y'" and some method of a repository class named X assigns self.y"""
     import re
@@ -363,8 +367,9 @@ def explore(harness, vc_factory, opts=None):
         except Exception as e:
             # a library function that was handed a symbolic proxy it cannot digest (timedelta(seconds=SNum), int(SNum) inside C code, ...)
             # is a limit of this engine, not a property of the code: undecided, never a violation
-            if isinstance(e, (TypeError, ValueError, AttributeError, NotImplementedError)) and any(
-                    n in str(e) for n in ("SNum", "SBool", "GVec", "LVec", "LMat", "LState", "SymSet", "SymDict", "GFrame", "_Box")):
+            # (only the TYPE NAME of a proxy in a TypeError/AttributeError counts - "unsupported type ...: SNum", "'SNum' object has no attribute" -
+            #  an error message of the real code that merely prints a symbolic value, e.g. safeArccos' ValueError, is the code raising)
+            if isinstance(e, (TypeError, AttributeError, NotImplementedError)) and _re_proxy_type.search(str(e)):
                 res.unsupported.append(f"{type(e).__name__}: {str(e)[:160]} (path {c.decisions})")
                 res.paths += 1
                 e = None
